@@ -18,13 +18,15 @@ const SALTS: [Option<&[u8]>; 2] = [None, Some(b"salty")];
 #[derive(Clone, Debug, PartialEq, Eq, Hash)]
 enum Sym {
     /// key index (within the history's key group), salt index, seq, value index, cas, writer
-    Put { key: usize, salt: usize, seq: i64, val: usize, cas: Option<i64>, writer: usize },
+    /// claim: 0 = the request names the item's own target; 1 = the target of the same key under the other salt;
+    /// 2 = a target that belongs to nothing (the item is validly signed in every case)
+    Put { key: usize, salt: usize, seq: i64, val: usize, cas: Option<i64>, writer: usize, claim: u8 },
     Get { key: usize, salt: usize, filter: Option<i64> },
 }
 
 fn sym_json(s: &Sym) -> Value {
     match s {
-        Sym::Put { key, salt, seq, val, cas, writer } => json!({"op":"put","key":key,"salt":salt,"seq":seq,"value":val,"cas":cas,"writer":writer}),
+        Sym::Put { key, salt, seq, val, cas, writer, claim } => json!({"op":"put","key":key,"salt":salt,"seq":seq,"value":val,"cas":cas,"writer":writer,"claim":claim}),
         Sym::Get { key, salt, filter } => json!({"op":"get","key":key,"salt":salt,"filter":filter}),
     }
 }
@@ -62,6 +64,7 @@ struct Model {
     capacity: usize,
     states_seen: HashSet<String>,
     rejected_puts: u64,
+    foreign_target_puts: u64,
 }
 
 impl Model {
@@ -92,7 +95,7 @@ struct Ctx<'a> {
 /// Returns Some((signature, what, detail)) on a violation.
 fn step(cx: &mut Ctx, ks: &[KeySet], m: &mut Model, sym: &Sym) -> Option<(String, String, Value)> {
     match sym {
-        Sym::Put { key, salt, seq, val, cas, writer } => {
+        Sym::Put { key, salt, seq, val, cas, writer, claim } => {
             let ks = &ks[*key];
             let target = ks.targets[*salt];
             let sg = &ks.sigs[*salt][*seq as usize][*val];
@@ -101,6 +104,26 @@ fn step(cx: &mut Ctx, ks: &[KeySet], m: &mut Model, sym: &Sym) -> Option<(String
             // every writer holds a fresh token (fetched with a get on an unrelated target at start)
             let token = c.token.clone().map(|t| t.0).unwrap_or_default();
             let id = c.id;
+            if *claim != 0 {
+                // a validly signed item sent under a target that is not its own: whatever the node answers
+                // (C03 judges that), no slot may change - a later get shows it. For the eviction premise the
+                // claimed target counts as touched for every other slot.
+                let mut claimed = if *claim == 1 { ks.targets[1 - *salt] } else { target };
+                if *claim != 1 {
+                    claimed[19] ^= 0x5a;
+                }
+                let _ = cx.fx.rpc(c, |t| q_put_mutable(t, &id, &token, &claimed, v, &sg.k, &sg.sig, *seq, SALTS[*salt], *cas));
+                for (t, s) in m.slots.iter_mut() {
+                    if *t != claimed {
+                        s.others_since.insert(claimed);
+                    }
+                    if *t != target {
+                        s.others_since.insert(target);
+                    }
+                }
+                m.foreign_target_puts += 1;
+                return None;
+            }
             // the eviction premise must be evaluated before this request touches the slot
             let evictable = m.eviction_possible(&target);
             let reply = cx.fx.rpc(c, |t| q_put_mutable(t, &id, &token, &target, v, &sg.k, &sg.sig, *seq, SALTS[*salt], *cas));
@@ -220,10 +243,13 @@ fn alphabet_one_target() -> Vec<Sym> {
     for seq in 0..=2 {
         for val in 0..2 {
             for cas in [None, Some(0), Some(1), Some(2)] {
-                a.push(Sym::Put { key: 0, salt: 0, seq, val, cas, writer: 0 });
+                a.push(Sym::Put { key: 0, salt: 0, seq, val, cas, writer: 0, claim: 0 });
             }
         }
     }
+    // older / cas-mismatching items of the same key sent under a foreign target
+    a.push(Sym::Put { key: 0, salt: 0, seq: 0, val: 0, cas: None, writer: 0, claim: 2 });
+    a.push(Sym::Put { key: 0, salt: 0, seq: 1, val: 1, cas: Some(0), writer: 0, claim: 1 });
     for filter in [None, Some(0), Some(1), Some(2)] {
         a.push(Sym::Get { key: 0, salt: 0, filter });
     }
@@ -236,7 +262,7 @@ fn alphabet_two_targets() -> Vec<Sym> {
     for salt in 0..2 {
         for seq in 1..=2 {
             for (cas, writer) in [(None, 0), (Some(1), 1), (Some(2), 0)] {
-                a.push(Sym::Put { key: 0, salt, seq, val: (seq as usize + salt) % 2, cas, writer });
+                a.push(Sym::Put { key: 0, salt, seq, val: (seq as usize + salt) % 2, cas, writer, claim: 0 });
             }
         }
         for filter in [None, Some(1)] {
@@ -250,7 +276,7 @@ fn random_sym(rng: &mut Rng, keys: usize) -> Sym {
     if rng.chance(1, 3) {
         Sym::Get { key: rng.usize(keys), salt: rng.usize(2), filter: *rng.pick(&[None, None, Some(0), Some(1), Some(2), Some(3)]) }
     } else {
-        Sym::Put { key: rng.usize(keys), salt: rng.usize(2), seq: rng.usize(4) as i64, val: rng.usize(2), cas: *rng.pick(&[None, None, Some(0), Some(1), Some(2), Some(3)]), writer: rng.usize(2) }
+        Sym::Put { key: rng.usize(keys), salt: rng.usize(2), seq: rng.usize(4) as i64, val: rng.usize(2), cas: *rng.pick(&[None, None, Some(0), Some(1), Some(2), Some(3)]), writer: rng.usize(2), claim: if rng.chance(1, 8) { 1 + rng.usize(2) as u8 } else { 0 } }
     }
 }
 
@@ -261,7 +287,17 @@ struct Env {
 }
 
 fn new_env(seed: u64, capacity: Option<usize>) -> Env {
-    let settings = capacity.map(|c| ServerSettings { max_mutable_values: c, ..Default::default() });
+    new_env2(seed, capacity, false)
+}
+
+/// `tiny_immutable`: the limit of the OTHER value store is 1 (the mutable store keeps its own limit)
+fn new_env2(seed: u64, capacity: Option<usize>, tiny_immutable: bool) -> Env {
+    let mut settings = capacity.map(|c| ServerSettings { max_mutable_values: c, ..Default::default() });
+    if tiny_immutable {
+        let mut st = settings.unwrap_or_default();
+        st.max_immutable_values = 1;
+        settings = Some(st);
+    }
     let fx = Fixture::new(seed, settings);
     let mut clients = vec![
         fx.client(SocketAddrV4::new(Ipv4Addr::new(99, 1, 1, 1), 7001), [0xa1; 20]),
@@ -276,7 +312,7 @@ fn new_env(seed: u64, capacity: Option<usize>) -> Env {
 
 fn run_history(r: &mut Report, env: &mut Env, ks: &[KeySet], hist: &[Sym], class: &str, case_extra: Value) -> bool {
     r.eval();
-    let mut m = Model { slots: HashMap::new(), capacity: env.capacity, states_seen: HashSet::new(), rejected_puts: 0 };
+    let mut m = Model { slots: HashMap::new(), capacity: env.capacity, states_seen: HashSet::new(), rejected_puts: 0, foreign_target_puts: 0 };
     let mut cx = Ctx { fx: &env.fx, clients: std::mem::take(&mut env.clients) };
     let mut ok = true;
     for (i, s) in hist.iter().enumerate() {
@@ -296,6 +332,7 @@ fn run_history(r: &mut Report, env: &mut Env, ks: &[KeySet], hist: &[Sym], class
     if m.rejected_puts > 0 {
         r.count("histories_with_rejected_put");
     }
+    r.add("puts_under_a_foreign_target", m.foreign_target_puts);
     if r.want_sample() && m.states_seen.len() >= 3 && m.rejected_puts >= 1 {
         r.sample(json!({"class": class, "capacity": env.capacity, "history": hist.iter().map(sym_json).collect::<Vec<_>>(), "model_states": m.states_seen.len(), "rejected_puts": m.rejected_puts}));
     }
@@ -349,7 +386,11 @@ pub fn run(a: &Args) -> Report {
     let n_random = (if a.quick() { 12_800 } else { 48_000 }) / a.nshards.max(1);
     for i in 0..n_random {
         let cap = *rng.pick(&[None, Some(1), Some(2), Some(2)]);
-        let mut env = new_env(mix(a.seed, 0x99 + i), cap);
+        let tiny_immutable = rng.chance(1, 4);
+        if tiny_immutable && cap.is_none() {
+            r.count("default_capacity_histories_next_to_an_immutable_limit_of_1");
+        }
+        let mut env = new_env2(mix(a.seed, 0x99 + i), cap, tiny_immutable);
         let nkeys = 1 + rng.usize(3);
         let keys: Vec<KeySet> = (0..nkeys).map(|_| keyset(&mut rng)).collect();
         let len = 8 + rng.usize(33);
@@ -373,7 +414,7 @@ fn report_panics(r: &mut Report, panics: Vec<(String, String, String)>, class: &
 fn parse_sym(v: &Value) -> Option<Sym> {
     let oi = |x: &Value| x.as_i64();
     match v["op"].as_str()? {
-        "put" => Some(Sym::Put { key: v["key"].as_u64()? as usize, salt: v["salt"].as_u64()? as usize, seq: v["seq"].as_i64()?, val: v["value"].as_u64()? as usize, cas: oi(&v["cas"]), writer: v["writer"].as_u64()? as usize }),
+        "put" => Some(Sym::Put { key: v["key"].as_u64()? as usize, salt: v["salt"].as_u64()? as usize, seq: v["seq"].as_i64()?, val: v["value"].as_u64()? as usize, cas: oi(&v["cas"]), writer: v["writer"].as_u64()? as usize, claim: v["claim"].as_u64().unwrap_or(0) as u8 }),
         "get" => Some(Sym::Get { key: v["key"].as_u64()? as usize, salt: v["salt"].as_u64()? as usize, filter: oi(&v["filter"]) }),
         _ => None,
     }
